@@ -381,21 +381,30 @@ def eof_exit(P, R):
         R.broke('C08.MPT.1: no branch on %s == 0 after evbuffer_read' % resvar)
     # main: exit status is success iff clean_exit
     m = P.need_fn('main')
-    rets = [s for s in m.sites() if s.ev['k'] == 'ret' and s.ev.get('val') and 'clean_exit' in vars_in(s.ev['val'])]
-    okret = False
-    for s in rets:
-        v = s.ev['val']
-        if v.get('k') == 'cond' and is_var(v['c'], 'clean_exit') and const_of(v['t']) == 0 and const_of(v['f']) not in (None, 0):
-            okret = True
-    R.ob('C08.MPT.1', okret, rets[0] if rets else m, 'main returns success exactly when clean_exit is set', key='main:exit-status')
-    # the return after the dispatch loop is that one: no other return is reachable after event_base_dispatch
+    def classify(r):
+        l, op, rr = r
+        if is_var(l, 'clean_exit') and const_of(rr) == 0 and op in ('==', '!='):
+            return [('ce', op == '!=')]
+        return []
+    before = rules.atom_forward(m, classify)
     disp = [s for s in m.calls('event_base_dispatch')]
+    after = [s for s in m.sites() if s.ev['k'] == 'ret' and disp and s.bid in m.reach([disp[0].bid]) and not (s.bid == disp[0].bid and s.idx < disp[0].idx)]
+    bad = []
+    good = 0
+    for s in after:
+        v = s.ev.get('val')
+        v = m.expand_local(v, s) if isinstance(v, dict) else v
+        if isinstance(v, dict) and v.get('k') == 'cond' and is_var(v['c'], 'clean_exit') and const_of(v['t']) == 0 and const_of(v['f']) not in (None, 0):
+            good += 1
+            continue
+        c = const_of(v) if isinstance(v, dict) else None
+        sts = [rules.facts_of(st) for st in before.get(s.key, set())]
+        if isinstance(c, int) and sts and all(d.get('ce') is not None and (c == 0) == d['ce'] for d in sts):
+            good += 1
+            continue
+        bad.append(s)
+    R.ob('C08.MPT.1', good >= 1 and not bad, (bad[0] if bad else (after[0] if after else m)), 'main returns success exactly when clean_exit is set', key='main:exit-status')
     if disp:
-        bad = []
-        for s in m.sites():
-            if s.ev['k'] == 'ret' and s not in rets:
-                if s.bid in m.reach([disp[0].bid]) and not (s.bid == disp[0].bid and s.idx < disp[0].idx):
-                    bad.append(s)
         R.ob('C08.MPT.1', not bad, disp[0], 'every return after the event loop derives the status from clean_exit',
              key='main:returns-after-loop', detail=[b.loc for b in bad] or None)
     # writers of clean_exit only ever set it to 1
